@@ -1,0 +1,263 @@
+//go:build verif
+
+// Package verifexec is the settle machinery shared by the C16 drivers of the packages that use an
+// executors.PeriodicalExecutor (build tag verif): a driver-owned ticker whose Chan() method the
+// flusher evaluates every time it (re-)enters its select statement, and a delegating TaskContainer,
+// let a driver wait (condition variable, bounded) until the flusher is parked again. No sleeps on
+// the success path, no oracle logic.
+package verifexec
+
+import (
+	"reflect"
+	"sync"
+	"sync/atomic"
+	"time"
+
+	"github.com/gotid/god/lib/executors"
+	"github.com/gotid/god/lib/threading"
+	"github.com/gotid/god/lib/timex"
+)
+
+// Patience only ever elapses when the code under test hangs.
+const Patience = 4 * time.Second
+
+// Probe collects the hook events of one executor.
+type Probe struct {
+	Mu   sync.Mutex
+	cond *sync.Cond
+	seq  int64
+
+	Starts, Selects, Stops int
+	Ticks, Commands        int
+	Removed, Executed      int // RemoveAll results that will be executed / finished Execute calls
+	stopped                map[uint64]int
+	cur                    *ticker
+	pe                     *executors.PeriodicalExecutor
+	always                 bool // hasTasks is true for every RemoveAll result (non-slice batches)
+	hung                   string
+	orphan                 bool
+}
+
+// Next returns the next value of the global sequence counter.
+func (p *Probe) Next() int64 { return atomic.AddInt64(&p.seq, 1) }
+
+// Bump runs f under the probe's mutex and wakes the waiters.
+func (p *Probe) Bump(f func()) {
+	p.Mu.Lock()
+	f()
+	p.cond.Broadcast()
+	p.Mu.Unlock()
+}
+
+// Until waits (bounded) for pred, evaluated under the mutex.
+func (p *Probe) Until(pred func() bool) bool { return p.UntilFor(Patience, pred) }
+
+// UntilFor is Until with a custom bound.
+func (p *Probe) UntilFor(patience time.Duration, pred func() bool) bool {
+	deadline := time.Now().Add(patience)
+	timer := time.AfterFunc(patience+time.Millisecond, func() { p.Bump(func() {}) })
+	defer timer.Stop()
+	p.Mu.Lock()
+	defer p.Mu.Unlock()
+	for !pred() {
+		if time.Now().After(deadline) {
+			return false
+		}
+		p.cond.Wait()
+	}
+	return true
+}
+
+func (p *Probe) quiet() bool {
+	if p.Selects+p.Stops != p.Starts+p.Ticks+p.Commands {
+		return false
+	}
+	if p.Removed != p.Executed {
+		return false
+	}
+	for _, st := range p.stopped {
+		if st == 0 || st == 2 {
+			return false
+		}
+	}
+	return true
+}
+
+// SetHung records the first hang.
+func (p *Probe) SetHung(s string) {
+	p.Bump(func() {
+		if p.hung == "" {
+			p.hung = s
+		}
+	})
+}
+
+// Hung returns the first recorded hang ("" if none).
+func (p *Probe) Hung() string {
+	p.Mu.Lock()
+	defer p.Mu.Unlock()
+	return p.hung
+}
+
+type ticker struct {
+	p      *Probe
+	c      chan time.Time
+	stopCh chan struct{}
+}
+
+func (t *ticker) Chan() <-chan time.Time {
+	t.p.Bump(func() { t.p.Selects++ })
+	return t.c
+}
+
+func (t *ticker) Stop() {
+	gid := threading.RoutineId()
+	t.p.Bump(func() {
+		t.p.Stops++
+		t.p.stopped[gid] = 0
+		close(t.stopCh)
+	})
+}
+
+type container struct {
+	p     *Probe
+	inner executors.TaskContainer
+}
+
+func (c *container) AddTask(task any) bool {
+	full := c.inner.AddTask(task)
+	if full {
+		c.p.Bump(func() { c.p.Commands++ })
+	}
+	return full
+}
+
+func (c *container) willExecute(vals any) bool {
+	if vals == nil {
+		return false
+	}
+	v := reflect.ValueOf(vals)
+	switch v.Kind() {
+	case reflect.Array, reflect.Chan, reflect.Map, reflect.Slice:
+		return v.Len() > 0
+	default:
+		return true
+	}
+}
+
+func (c *container) RemoveAll() any {
+	vals := c.inner.RemoveAll()
+	will := c.willExecute(vals)
+	gid := threading.RoutineId()
+	c.p.Bump(func() {
+		if will {
+			c.p.Removed++
+		}
+		if st, ok := c.p.stopped[gid]; ok && st == 0 {
+			if will {
+				c.p.stopped[gid] = 2
+			} else {
+				c.p.stopped[gid] = 1
+			}
+		}
+	})
+	return vals
+}
+
+func (c *container) Execute(tasks any) {
+	c.inner.Execute(tasks)
+	gid := threading.RoutineId()
+	c.p.Bump(func() {
+		c.p.Executed++
+		if st, ok := c.p.stopped[gid]; ok && st == 2 {
+			c.p.stopped[gid] = 3
+		}
+	})
+}
+
+// Attach instruments pe (before its first Add) and returns the probe.
+func Attach(pe *executors.PeriodicalExecutor) *Probe {
+	p := &Probe{stopped: map[uint64]int{}, pe: pe}
+	p.cond = sync.NewCond(&p.Mu)
+	executors.VerifWrapContainer(pe, func(inner executors.TaskContainer) executors.TaskContainer {
+		return &container{p: p, inner: inner}
+	})
+	executors.VerifSetNewTicker(pe, func(time.Duration) timex.Ticker {
+		t := &ticker{p: p, c: make(chan time.Time), stopCh: make(chan struct{})}
+		p.Bump(func() {
+			p.Starts++
+			p.cur = t
+		})
+		return t
+	})
+	return p
+}
+
+// Settle waits until every started flusher is parked in its select or has finished its deferred
+// Flush and every batch taken out of the container has been executed.
+func (p *Probe) Settle(what string) bool {
+	if !p.Until(p.quiet) {
+		p.SetHung(what + ": not quiescent")
+		return false
+	}
+	_, _, guarded := executors.VerifPending(p.pe)
+	if guarded && !p.orphan {
+		if !p.UntilFor(Patience/4, func() bool { return p.Starts > p.Stops }) {
+			p.orphan = true
+		}
+		if !p.Until(p.quiet) {
+			p.SetHung(what + ": not quiescent")
+			return false
+		}
+	}
+	return true
+}
+
+// Bounded runs f in its own goroutine and waits for it; a hang is an observation.
+func (p *Probe) Bounded(what string, f func()) bool {
+	done := make(chan struct{})
+	go func() {
+		defer close(done)
+		f()
+	}()
+	select {
+	case <-done:
+		return true
+	case <-time.After(Patience):
+		p.SetHung(what + ": did not return")
+		return false
+	}
+}
+
+// Tick offers one tick to the live flusher's ticker and reports whether it was taken.
+func (p *Probe) Tick() bool {
+	p.Mu.Lock()
+	t := p.cur
+	p.Mu.Unlock()
+	if t == nil {
+		return false
+	}
+	select {
+	case <-t.stopCh:
+		return false
+	default:
+	}
+	select {
+	case t.c <- time.Now():
+		p.Bump(func() { p.Ticks++ })
+		return true
+	case <-t.stopCh:
+		return false
+	case <-time.After(Patience):
+		p.SetHung("tick: live flusher never took it")
+		return false
+	}
+}
+
+// State reports (guarded, flusher starts, flusher stops, len(commander)).
+func (p *Probe) State() (bool, int, int, int) {
+	_, queued, guarded := executors.VerifPending(p.pe)
+	p.Mu.Lock()
+	defer p.Mu.Unlock()
+	return guarded, p.Starts, p.Stops, queued
+}
